@@ -7,7 +7,7 @@ from . import geom
 
 SPEC = dict(
     technique='Lean 4 proof (group laws on the regenerated model) + float monitor incl. multi-valued objects and expression trees',
-    lean_modules=['SmVerif.Props.C02', 'SmVerif.Props.PoseOps'],
+    lean_modules=['SmVerif.Props.C02', 'SmVerif.Props.PoseOps', 'SmVerif.Props.NegPow', 'SmVerif.Props.UQOps'],
     groups=['Poses', 'Quaternions', 'Quats', 'Transforms3d', 'Transforms2d'],
     expected_untranslatable=('trinterp_T', 'trinterp_T_nostart', 'UQ_interp', 'UQ_interp_shortest'),
     partial=['negative powers go through numpy matrix_power (LAPACK inverse): explored only; twist composition '
